@@ -56,6 +56,10 @@ class Prop:
                 if b'\n' in m.strip(b'\r\n') and False:
                     continue
                 muts.append((name, label, m))
+        # tag blocks that are all punctuation (nothing in front of the checksum, a lone separator)
+        for tb in (b'\\*00\\', b'\\*\\', b'\\*zz\\', b'\\,*2C\\', b'\\:*3A\\', b'\\*00*00\\', b'\\\\'):
+            muts.append(('single', 'tagblock-%s' % tb.hex(), tb + base['single']))
+            muts.append(('frag1', 'tagblock-%s' % tb.hex(), tb + base['two'][0]))
         # limits of the parser: payload length and fragment count / number right at, below and above the bounds
         long_bits = gen.payload_bits(rng, 'MessageType8', length=1008) * 2
         for n in (198, 199, 200, 201, 202, 255, 256, 1000):
